@@ -7,6 +7,7 @@ import (
 	"math/big"
 	"reflect"
 	"strconv"
+	"strings"
 
 	"verifharness/kit"
 )
@@ -672,6 +673,28 @@ func genDefault(r *kit.Rand, f *fieldD) {
 	f.HasDef, f.Def = true, text
 }
 
+// genSliceDefault gives a slice-of-scalars field a default=[a,b,c] option.
+func genSliceDefault(r *kit.Rand, f *fieldD) {
+	k := f.Elem.Kind
+	n := r.Range(1, 4)
+	elems := make([]string, 0, n)
+	for i := 0; i < n; i++ {
+		switch {
+		case k == reflect.String:
+			elems = append(elems, "d"+token(r)) // never a literal of another kind
+		case k == reflect.Bool:
+			elems = append(elems, strconv.FormatBool(r.Bool()))
+		case isFloat(k):
+			elems = append(elems, floatText(float64(r.Range(-400, 400))/8, k))
+		case isUint(k) || bitsOf(k) == 8:
+			elems = append(elems, strconv.Itoa(r.Range(0, 120)))
+		default:
+			elems = append(elems, strconv.Itoa(r.Range(-99, 999)))
+		}
+	}
+	f.HasDef, f.DefList, f.Def = true, elems, "["+strings.Join(elems, ",")+"]"
+}
+
 // decorate adds tag options to a scalar field.
 func (g *typeGen) decorate(f *fieldD, siblings []string) {
 	r := g.r
@@ -813,6 +836,9 @@ func (g *typeGen) genStruct(depth int, nmin, nmax int) *structD {
 			}
 		default:
 			g.decorate(f, sib)
+			if f.Kind == reflect.Slice && f.Elem.Kind != reflect.Struct && g.r.Chance(0.3) {
+				genSliceDefault(g.r, f)
+			}
 			single := !g.http
 			if g.inOptEmb {
 				break
